@@ -81,3 +81,15 @@ def is_name(node, name):
 
 def is_attr_of(node, base, attr):
     return isinstance(node, ast.Attribute) and node.attr == attr and is_name(node.value, base)
+
+
+def canon(src):
+    """canonical text of a source fragment (expression or statement), same form as project.norm()."""
+    try:
+        return ast.unparse(ast.parse(src, mode="eval").body)
+    except SyntaxError:
+        return ast.unparse(ast.parse(src).body[0])
+
+
+def canon_all(*srcs):
+    return {canon(s) for s in srcs}
